@@ -90,7 +90,6 @@ SInit == [frames |-> << [layer |-> 1, attrs |-> <<Absent, Absent, VFalse, VNone,
 RECURSIVE FindFrom(_, _, _)
 FindFrom(fr, n, k) == IF k = 0 THEN 0 ELSE IF fr[k].attrs[n] # Absent THEN k ELSE FindFrom(fr, n, k - 1)
 Lk(fr, n) == LET k == FindFrom(fr, n, Len(fr)) IN IF k = 0 THEN Absent ELSE fr[k].attrs[n]
-LkBelow(fr, n) == LET k == FindFrom(fr, n, Len(fr) - 1) IN IF k = 0 THEN Absent ELSE fr[k].attrs[n]
 RECURSIVE LayerFrom(_, _, _)
 LayerFrom(fr, l, k) == IF k = 0 THEN 0 ELSE IF fr[k].layer = l THEN k ELSE LayerFrom(fr, l, k - 1)
 \* _select_stack_frame_by_layer: innermost frame with that '@layer' (0: LookupError); layer 0 = current frame
@@ -206,19 +205,18 @@ Apply(s, op, seq) ==
 MFrame(l) == [layer |-> l, attrs |-> [i \in 1..NP |-> Absent], regs |-> <<>>]
 MInit == << [layer |-> 1, attrs |-> <<Absent, Absent, VFalse, VNone, VNone>>, regs |-> <<>>] >>
 
-ObsValue(ob, i) == IF ObsHas(ob, i) = 0 THEN Absent ELSE IF ObsVal(ob, i) = Absent THEN 99 ELSE ObsVal(ob, i)
-Bad(fr, ob) == {i \in 1..NP : ObsVal(ob, i) # Lk(fr, i) \/ ObsHas(ob, i) # (IF Lk(fr, i) = Absent THEN 0 ELSE 1)}
+\* R3/R4: after a deviation the monitor does not guess what the implementation's frames look like: the names
+\* concerned become Unknown (in the frame concerned, or everywhere) and views through an Unknown entry are not
+\* judged until the name is assigned again or the scope ends.  One deviation, one verdict.
+Unknown == 97
+RECURSIVE MFind(_, _, _)
+MFind(fr, n, k) == IF k = 0 THEN Absent ELSE IF fr[k].attrs[n] # Absent THEN fr[k].attrs[n] ELSE MFind(fr, n, k - 1)
+MLk(fr, n) == MFind(fr, n, Len(fr))         \* a value, Absent, or Unknown
+Bad(fr, ob) == {i \in 1..NP : /\ MLk(fr, i) # Unknown
+                              /\ \/ ObsVal(ob, i) # MLk(fr, i)
+                                 \/ ObsHas(ob, i) # (IF MLk(fr, i) = Absent THEN 0 ELSE 1)}
 ViewV(fr, ob, clause) == IF Bad(fr, ob) = {} THEN {} ELSE {<<clause, "view">>}
-\* adoption of the observed view after a verdict (R4: one deviation, one clause)
-Resync1(fr, i, val) ==
-   LET d == Len(fr)
-   IN IF Lk(fr, i) = val THEN fr
-      ELSE IF val = Absent THEN [k \in 1..d |-> [fr[k] EXCEPT !.attrs[i] = Absent]]
-      ELSE IF LkBelow(fr, i) = val THEN [fr EXCEPT ![d].attrs[i] = Absent]
-      ELSE [fr EXCEPT ![d].attrs[i] = val]
-RECURSIVE ResyncFrom(_, _, _)
-ResyncFrom(fr, ob, i) == IF i > NP THEN fr ELSE ResyncFrom(Resync1(fr, i, ObsValue(ob, i)), ob, i + 1)
-Resync(fr, ob) == ResyncFrom(fr, ob, 1)
+Forget(fr, S) == [k \in DOMAIN fr |-> [fr[k] EXCEPT !.attrs = [i \in 1..NP |-> IF i \in S THEN Unknown ELSE @[i]]]]
 
 \* the scope with registrations `regs` ends and `ran` was executed
 ScopeEndV(regs, ran, e) ==
@@ -254,25 +252,28 @@ MonCase(m, op, ob, seq) ==
    IN CASE c = 1 -> LET f == Append(m, MFrame(op[2])) IN MR(f, ViewV(f, ob, "visible") \cup EarlyV(ran), {ENone})
         [] c = 2 -> LET f == IF d = 1 THEN m ELSE SubSeq(m, 1, d - 1)
                         bad == Bad(f, ob)
-                    IN MR(f, {<<"shadow", "view">> : i \in {x \in bad : m[d].attrs[x] # Absent /\ Lk(f, x) # Absent}}
-                             \cup {<<"scope_end", "view">> : i \in {x \in bad : ~(m[d].attrs[x] # Absent /\ Lk(f, x) # Absent)}}
+                    IN MR(f, {<<"shadow", "view">> : i \in {x \in bad : m[d].attrs[x] # Absent /\ MLk(f, x) # Absent}}
+                             \cup {<<"scope_end", "view">> : i \in {x \in bad : ~(m[d].attrs[x] # Absent /\ MLk(f, x) # Absent)}}
                              \cup ScopeEndV(m[d].regs, ran, e), {ENone, ECleanup})
         [] c = 14 -> LET f == [m EXCEPT ![d].regs = <<>>]
                      IN MR(f, ViewV(f, ob, "visible") \cup ScopeEndV(m[d].regs, ran, e), {ENone, ECleanup})
         [] c = 3 -> LET f == [m EXCEPT ![d].attrs[n] = op[3]] IN MR(f, ViewV(f, ob, "visible") \cup EarlyV(ran), {ENone})
         [] c = 4 -> LET f == [m EXCEPT ![1].attrs[n] = op[3]] IN MR(f, ViewV(f, ob, "root_attr") \cup EarlyV(ran), {ENone})
-        [] c = 5 -> LET x == Lk(m, n)
-                    IN MR(m, (IF (x = Absent /\ e = EAttr) \/ (x # Absent /\ e = ENone /\ ret = x) THEN {} ELSE {<<"visible", "get">>})
+        [] c = 5 -> LET x == MLk(m, n)
+                    IN MR(m, (IF x = Unknown \/ (x = Absent /\ e = EAttr) \/ (x # Absent /\ e = ENone /\ ret = x) THEN {} ELSE {<<"visible", "get">>})
                              \cup ViewV(m, ob, "visible") \cup EarlyV(ran), {ENone, EAttr})
-        [] c = 6 -> MR(m, (IF ret = (IF Lk(m, n) = Absent THEN 0 ELSE 1) THEN {} ELSE {<<"visible", "has">>})
+        [] c = 6 -> MR(m, (IF MLk(m, n) = Unknown \/ ret = (IF MLk(m, n) = Absent THEN 0 ELSE 1) THEN {} ELSE {<<"visible", "has">>})
                           \cup ViewV(m, ob, "visible") \cup EarlyV(ran), {ENone})
-        [] c = 7 -> IF m[d].attrs[n] # Absent
+        [] c = 7 -> IF m[d].attrs[n] = Unknown      \* not known whether the name is set in this scope: afterwards it is not
+                    THEN LET f == [m EXCEPT ![d].attrs[n] = Absent] IN MR(f, ViewV(f, ob, "delete_local") \cup EarlyV(ran), {ENone, EAttr})
+                    ELSE IF m[d].attrs[n] # Absent
                     THEN IF e = EAttr THEN MR(m, {<<"delete_local", "refused">>} \cup EarlyV(ran), {ENone, EAttr})
                          ELSE LET f == [m EXCEPT ![d].attrs[n] = Absent] IN MR(f, ViewV(f, ob, "delete_local") \cup EarlyV(ran), {ENone, EAttr})
                     ELSE MR(m, ViewV(m, ob, "delete_local") \cup EarlyV(ran), {ENone, EAttr})
-        [] c \in {8, 9} -> LET x == Lk(m, n)
-                               f == IF x = Absent THEN [m EXCEPT ![d].attrs[n] = op[3]] ELSE m
-                           IN MR(f, (IF ret = (IF x = Absent THEN op[3] ELSE x) THEN {} ELSE {<<"visible", "ret">>})
+        [] c \in {8, 9} -> LET x == MLk(m, n)
+                               f == IF x = Absent THEN [m EXCEPT ![d].attrs[n] = op[3]]
+                                    ELSE IF x = Unknown THEN [m EXCEPT ![d].attrs[n] = Unknown] ELSE m
+                           IN MR(f, (IF x = Unknown \/ ret = (IF x = Absent THEN op[3] ELSE x) THEN {} ELSE {<<"visible", "ret">>})
                                     \cup ViewV(f, ob, "visible") \cup EarlyV(ran), {ENone})
         [] c = 10 -> LET rz == op[3] % 2
                          args == op[3] \div 2
@@ -305,9 +306,18 @@ MonCase(m, op, ob, seq) ==
 ExcTag(e) == IF e \in 1..8 THEN ExcName[e] ELSE "other"
 MonStep(m, op, ob, seq) ==
    LET r == MonCase(m, op, ob, seq)
+       c == op[1]
+       d == Len(m)
    IN IF ObsE(ob) \notin r.ok
-      THEN [m |-> Resync(IF op[1] \in {2, 14} THEN r.fr ELSE m, ob), v |-> {<<"api_errors", ExcTag(ObsE(ob))>>}]
-      ELSE [m |-> IF r.v = {} THEN r.fr ELSE Resync(r.fr, ob), v |-> r.v]
+      THEN \* an exception the operation must not raise: one verdict; whether the operation took effect is not known
+           LET base == CASE c \in {1, 2, 14} -> r.fr
+                         [] c \in {3, 7, 8, 9} -> [m EXCEPT ![d].attrs[op[2]] = Unknown]
+                         [] c = 4 -> [m EXCEPT ![1].attrs[op[2]] = Unknown]
+                         [] c = 11 /\ op[4] = 2 -> [m EXCEPT ![d].attrs[NmA] = Unknown]
+                         [] c = 13 -> Forget(m, {NmText, NmTable})
+                         [] OTHER -> m
+           IN [m |-> Forget(base, Bad(base, ob)), v |-> {<<"api_errors", ExcTag(ObsE(ob))>>}]
+      ELSE [m |-> IF r.v = {} THEN r.fr ELSE Forget(r.fr, Bad(r.fr, ob)), v |-> r.v]
 
 \* ============================================================ known findings (narrow exception predicates)
 \* KF_C13_1: internal KeyError of the masking-warning bookkeeping: the name has no _record entry although a frame
